@@ -110,7 +110,7 @@ class RefGen:
                     else:
                         cur.append(c)
                 if not words:
-                    raise IndexError('no words')       # an all-blank value with a word limit: nothing is claimed
+                    return None                        # a word-limited variable without a single word is as good as unbound: the alternative does not apply
                 parts = []
                 for i, w in enumerate(words[:int(fmt)]):
                     if i:
@@ -215,8 +215,6 @@ def h_files(e, tid, nreq, idlen, titlelen, reserved=False):
             want = ref.request(b)
         except ValueError:
             werr = 'ValueError'
-        except IndexError:
-            return              # $title(n) with an all-blank title: the word list is empty; nothing is claimed
         for k, v in b.items():
             fn.variables[k] = v
         got, gerr = None, None
